@@ -844,6 +844,37 @@ pub fn random_bytes(r: &mut Rng) -> Vec<u8> {
 /// decoder that picks the container kind from the SUM instead of the real cardinality is exposed. The declared
 /// cardinality is the real one. Returns the bytes, the set, and a description.
 pub fn overlapping_runs_stream(r: &mut Rng) -> (Vec<u8>, Vec<u32>, String) {
+    if r.chance(1, 3) {
+        // DISJOINT runs of different lengths listed out of order (descending, or one run moved): every replayed run is
+        // inserted in front of / between values that are already there
+        let nr = r.range(2, 5) as usize;
+        let mut runs: Vec<(u16, u16)> = Vec::new();
+        let mut pos = r.below(1000) as u32;
+        for _ in 0..nr {
+            let len = *r.pick(&[1u32, 2, 3, 10, 64, 300, 2000]);
+            runs.push((pos as u16, (len - 1) as u16));
+            pos += len + *r.pick(&[1u32, 2, 50, 5000]);
+        }
+        let mut vals: Vec<u16> = Vec::new();
+        for &(s, l) in &runs {
+            vals.extend(s..=s + l);
+        }
+        match r.below(3) {
+            0 => runs.reverse(),
+            1 => {
+                let x = runs.remove(0);
+                runs.push(x);
+            }
+            _ => {
+                let x = runs.pop().unwrap();
+                runs.insert(0, x);
+            }
+        }
+        let key = *r.pick(&[0u16, 1, 7, 0xFFFF]);
+        let chunks = vec![Chunk { key, vals, runs: Some(runs.clone()) }];
+        let (bytes, _) = encode(&chunks, true);
+        return (bytes, set_of(&chunks), format!("out-of-order-disjoint-runs runs={}", runs.len()));
+    }
     let target_union = *r.pick(&[4095u32, 4096, 4096, 4097, 3000, 6000, 100]);
     let a = r.below(20000) as u32;
     // two or three runs covering a .. a + target_union - 1 with overlaps
